@@ -155,6 +155,17 @@ def cmd_check(prop, tier, seed, args):
 
 def cmd_replay(prop, path, args):
     seams.install()
+    with open(path) as f:
+        peek = json.load(f)
+    if peek.get("mode") == "hashseed":
+        pm = core._prop_module(prop)
+        v = pm.replay_hashseed(peek)
+        if v is not None:
+            print("violation: %s" % json.dumps(v, sort_keys=True))
+            print("VIOLATION property=%s replay=%s" % (prop, path))
+            return 1
+        print("replay %s: no violation" % path)
+        return 0
     doc, res = core.replay_file(path)
     want = doc.get("violation")
     got = res["violation"]
@@ -172,6 +183,20 @@ def cmd_replay(prop, path, args):
     return 0
 
 
+def cmd_hashes(path):
+    """Execute the cases in the JSON file `path` and print, per case, the hashes of every text it dumped
+    (used by the real-PYTHONHASHSEED sweep of C08: one fresh interpreter per hash seed)."""
+    seams.install()
+    with open(path) as f:
+        cases = json.load(f)
+    out = []
+    for case in cases:
+        r = core.run_case(case)
+        out.append({"hashes": r["dump_hashes"], "violation": r["violation"], "digest": r["digest"]})
+    print(json.dumps(out))
+    return 0
+
+
 def cmd_digests(prop, tier, seed, n):
     seams.install()
     for idx in range(n):
@@ -186,6 +211,7 @@ def main():
     ap.add_argument("--seed", type=int, default=None)
     ap.add_argument("--replay")
     ap.add_argument("--digests", type=int)
+    ap.add_argument("--hashes")
     ap.add_argument("--runs", type=int)
     ap.add_argument("--workers", type=int)
     ap.add_argument("--no-evidence", action="store_true")
@@ -193,6 +219,8 @@ def main():
     seed = args.seed if args.seed is not None else int(os.environ.get("VERIF_SEED", "0") or 0)
     prop = args.prop.upper()
     try:
+        if args.hashes:
+            return cmd_hashes(args.hashes)
         if args.replay:
             return cmd_replay(prop, args.replay, args)
         if args.digests:
